@@ -221,6 +221,33 @@ theorem bad_parameters_fail_transform (fmt name : Str) (props : List (Str × Lis
     (rest : List Node) (o : OpSig) (h : findOp false name = some o) (hd : decodeOk props o.fields = false) :
     buildTail fmt (.mk name props sources :: rest) = none := build_tran_decode fmt name props sources rest o h hd
 
+/-! ## the registered operations, geographic boxes, file names -/
+
+/-- every operation of the table (= the documentation of the registered factories, compared on every run by
+    the `C18 docs` stream) is found under its name in its position — read or transform — and not in the other -/
+theorem operation_table_consistent :
+    ∀ o ∈ opTable, findOp o.read o.name = some o ∧ findOp (!o.read) o.name = none := findOp_table
+
+/-- `filter_bbox`: four numbers, or nothing is built; numbers that fail `GeoBBox::check` (reversed, out of
+    range, inf, nan) fail the pipeline -/
+theorem bbox_needs_four (vs : List Str) (h : bboxOk vs = true) : vs.length = 4 := bboxOk_length vs h
+theorem bad_bbox_fails_pipeline (fmt : Str) (props : List (Str × List Str)) (sources : List (List Node))
+    (rest : List Node) (h : bboxOk ((lookupProp props "bbox".toList).getD []) = false) :
+    buildTail fmt (.mk "filter_bbox".toList props sources :: rest) = none := build_bad_bbox fmt props sources rest h
+
+/-- `from_container filename=…`: "relative to the path of the VPL file" — an absolute name stands for itself,
+    a relative one goes behind the directory, and the name is resolved once (fix 2ce988ce; resolving twice, as
+    the code did, differs for every relative directory: `file_name_resolved_twice_differs`) -/
+theorem absolute_file_name (dir t : Str) : readerPath dir ('/' :: t) = '/' :: t := pathJoin_absolute dir t
+theorem relative_file_name (dir name : Str) (hn : ∀ t, name ≠ '/' :: t) (hd : dir ≠ []) (hs : dir.getLast? ≠ some '/') :
+    readerPath dir name = dir ++ '/' :: name := pathJoin_relative dir name hn hd hs
+theorem file_name_resolved_twice_differs :
+    pathJoin "rel".toList (pathJoin "rel".toList "x".toList) ≠ pathJoin "rel".toList "x".toList := double_join_differs
+
+example : bboxOk ["10".toList, "20".toList, "5".toList, "30".toList] = false := by decide
+example : bboxOk ["-180".toList, "-90".toList, "180.0".toList, "9e1".toList] = true := by decide
+example : bboxOk ["0".toList, "0".toList, "nan".toList, "1".toList] = false := by decide
+
 /-! ## the parameter map (`BTreeMap<String, Vec<String>>` of `parse_node`) -/
 
 /-- the keys of the map come out strictly ascending, each once (BTreeMap iteration order) -/
